@@ -17,6 +17,10 @@ def main():
     for name in names:
         d = os.path.join(VERIF, "seeded", name)
         meta = json.load(open(os.path.join(d, "meta.json")))
+        if meta.get("neutralised_by_fix"):
+            # a later repair of the repository removed the situation this change relied on: it no longer breaks anything
+            print(name, "skipped (neutralised by fix %s)" % meta["neutralised_by_fix"], flush=True)
+            continue
         scratch = tempfile.mkdtemp(prefix="rv-seed-")
         try:
             shutil.copytree("/repo/rich", os.path.join(scratch, "rich"))
